@@ -38,7 +38,8 @@ def vary(tokens, rng):
             prev = tokens[i - 1][0] if i else None
             # a terminator: ';' anywhere, a newline only after a statement-ending token
             if prev in ENDERS and r < 0.6:
-                out.append(rng.choice(["\n", "\r\n", " \n", "\n", " // c é \"\n", "\t\n"]))
+                # a continuation right before the terminating newline is still just trivia
+                out.append(rng.choice(["\n", "\r\n", " \n", "\n", " // c é \"\n", "\t\n", " \\\n\n", " \\\n // c\n", " \\\n \t\r\n"]))
             else:
                 out.append(rng.choice([";", " ;", "; "]))
             # blank lines / more blanks after a terminator never add tokens (prev token is now SoftSemi)
@@ -86,7 +87,12 @@ class PROP(PropCheck):
         bases = []
         for _ in range(nb):
             g = S.Sem(rng, dict(trace=0.2, err=0.03, lists=0.2, calls=0.4, ctl=0.7), maxd=rng.randint(1, 3))
-            bases.append(g.program())
+            prog = g.program()
+            if rng.random() < 0.5:      # the three IMPORT forms and EXPORT, so that every keyword occurs
+                prog = rng.choice(['IMPORT ["ROUND", "FLOOR"] FROM MOD "MATH"\nDISPLAY(ROUND(2.5) + FLOOR(1.5))\n',
+                                   'IMPORT "TO_UPPER" FROM MOD "STRING"\nDISPLAY(TO_UPPER("x"))\n', 'IMPORT MOD "MAP"\nmm <- MAP()\n',
+                                   'EXPORT PROCEDURE ex(q) {\nRETURN NOT (q MOD 2 == 0) AND TRUE OR NULL\n}\nDISPLAY(ex(3))\n']) + prog
+            bases.append(prog)
         lexed = C.run_harness("lex", bases, tag="C06lex")
         ran = C.run_harness("run", bases, self.budget, self.depth, tag="C06run")
         out = []
